@@ -28,6 +28,7 @@ META = dict(
     technique="Coq proof (enumeration = definition, verified partition/orbit checker) + exact correspondence",
 )
 
+import itertools, json
 import numpy as np
 from . import gen, starcase as sc
 from .lib import CoqFailure
@@ -145,7 +146,10 @@ def run(ck):
     ck.rule = ("crystal pool (named + random crystal systems, 2-D/3-D, 1-3 atoms of the mobile species, optional spectator) x "
                "percolating cutoff x Nthermo in {1,2}: VacancyMediated (pruned) when the kinetic set is within the size budget, "
                "and StarSet(N=Nthermo+1, origin states on/off).jumpnetwork_omega1/2 (unpruned); distinct = distinct (crystal, "
-               "cutoff, Nthermo, source); non-trivial = at least 2 omega1 classes")
+               "cutoff, Nthermo, source, history); non-trivial = at least 2 omega1 classes; history tier (corpus fcc, bcc, honeycomb + "
+               "first pool crystals): the same StarSet asked for omega1/omega2, regenerated to a larger/smaller range and asked "
+               "again, and VacancyMediated(...,1).generate(2).generate(1); each later answer judged like a fresh one and "
+               "compared with a freshly built object")
     ck.trusted += ["harness/starcase.py, c26.py: integer lattice view of jump network / space group / displacements (1e-8)",
                    "crys.G is the space group (C18); crys.jumpnetwork is complete and closed under reversal (C21)"]
     ck.theorems()
@@ -159,26 +163,42 @@ def run(ck):
     crystalStars.zeroclean = _fastclean
     ck.note("crystalStars.zeroclean replaced by its vectorised equivalent in this process (expansions are not observed by C26)")
     rng = ck.rng
-    ncrys = ck.n(11, 36)
+    ncrys = ck.n(9, 36)
     vm_max_states = ck.n(140, 320)          # VacancyMediated construction cost grows fast
-    coq_cost_budget = ck.n(1.2e8, 6e8)      # sum of transitions * |G| * states sent to the model
+    coq_cost_budget = ck.n(2.2e8, 8e8)      # sum of transitions * |G| * states sent to the model
     coq_case_max = ck.n(3e7, 2.5e8)
     defs, runs, meta = [], [], []
-    spent = 0.
     skipped = {"nonpercolating": 0, "construct-failed": 0, "geometry": 0, "coq-budget": 0, "vacancymediated-too-large": 0}
 
     def violation(key, msg, info, detail=None):
         d = dict(info); d.update(detail or {})
         ck.violation(msg, d, key="c26-" + key)
 
-    for label, crys, chem in gen.pool(rng, ncrys, random_frac=0.55):
+    hstats = {"regenerations": 0, "vacancymediated-too-large": 0}
+    state = {"spent": 0.}
+
+    def canon(K, jn_, jt_):
+        """classification as a set of (jump type, set of (initial state, final state, rounded dx)): independent of indices"""
+        return set((int(t), frozenset((sc.ps_of(K.states[i]), sc.ps_of(K.states[f]), tuple(np.round(dx, 8) + 0.)) for (i, f), dx in cl))
+                   for cl, t in zip(jn_, jt_))
+
+    # fixed corpus first (fcc and bcc: the stale-cache orderings differ between ranges), then the random pool
+    corpus = [(nm,) + gen.named(nm) for nm in ("fcc", "bcc", "honeycomb")]
+    ncr = 0
+    for label, crys, chem in itertools.chain(corpus, gen.pool(rng, ncrys, random_frac=0.55)):
+        ncr += 1
+        in_corpus = ncr <= len(corpus)
         try:
-            net = gen.percolating_network(crys, chem, rng, maxjumps=ck.n(30, 60))
+            if in_corpus:
+                sh = gen.shells(crys, chem)
+                cut = sh[0] + 1e-4; sl = crys.sitelist(chem); jn = crys.jumpnetwork(chem, cut)   # nearest-neighbour network
+            else:
+                net = gen.percolating_network(crys, chem, rng, maxjumps=ck.n(30, 60))
+                if net is None:
+                    skipped["nonpercolating"] += 1; continue
+                cut, sl, jn = net
         except Exception:
             skipped["construct-failed"] += 1; continue
-        if net is None:
-            skipped["nonpercolating"] += 1; continue
-        cut, sl, jn = net
         try:
             jumps = sc.latt_jumps(crys, chem, jn)
             ops = sc.ops_of(crys, chem)
@@ -189,72 +209,124 @@ def run(ck):
         defs.append("Definition J%d : list (ps * nat) := [%s].\nDefinition G%d : list op := [%s].\n" % (
             cid, "; ".join("(%s, %d%%nat)" % (sc.c_ps((i, j, R)), t) for (i, j, R, t) in jumps), cid, "; ".join(sc.c_op(g) for g in ops)))
         info0 = {"crystal": repr(crys), "label": label, "chem": chem, "cutoff": cut}
+
+        def judge(src, Nth, K, korigin, prune, j1, t1, j2, t2, d, extra=None, fresh=None):
+            """evaluate one (state list, omega1 classes, omega2 classes) of the implementation: brute force now, Coq later"""
+            info = dict(info0, Nthermo=Nth, source=src, originstates=korigin)
+            info.update(extra or {})
+            try:
+                sts = [sc.ps_of(s) for s in K.states]
+                expected = sc.reach_bruteforce(jumps, Nth + 1, nsites, korigin)
+                thermo = sc.reach_bruteforce(jumps, Nth, nsites, False)
+                bad = []
+                if set(sts) != expected or len(set(sts)) != len(sts):
+                    bad.append(("states", "kinetic state list is not the set reachable in Nthermo+1 jumps", {}))
+                v1, v2, missing = brute(sts, jumps, thermo if prune else None)
+                if missing:
+                    bad.append(("states", "reverse of a first-shell state missing from the state list", {"state": missing[0]}))
+                c1, r1 = to_tr(crys, chem, K, j1)
+                c2, r2 = to_tr(crys, chem, K, j2)
+                if max(r1, r2) > 1e-8:
+                    bad.append(("dx", "a jump displacement differs from the vacancy displacement by %.3g" % max(r1, r2), {}))
+                bad += eval_classes(c1, t1, v1, sts, ops, "omega1")
+                bad += eval_classes(c2, t2, v2, sts, ops, "omega2")
+                if d is not None:
+                    for idx, (cj, ct) in ((1, (j1, t1)), (2, (j2, t2))):
+                        ol, ojt = d.omegalist(idx)
+                        ok = len(ol) == len(cj) and list(ojt) == list(ct) and all(
+                            sc.ps_of(a) == sts[cl[0][0][0]] and sc.ps_of(b) == sts[cl[0][0][1]] for (a, b), cl in zip(ol, cj))
+                        if not ok: bad.append(("omegalist", "omegalist(%d) inconsistent with om%d_jn" % (idx, idx), {}))
+                if fresh is not None:
+                    (Kf, f1, ft1, f2, ft2) = fresh
+                    if canon(K, j1, t1) != canon(Kf, f1, ft1):
+                        bad.append(("fresh-omega1", "omega1 network of the regenerated object differs from a freshly built one", {}))
+                    if canon(K, j2, t2) != canon(Kf, f2, ft2):
+                        bad.append(("fresh-omega2", "omega2 network of the regenerated object differs from a freshly built one", {}))
+            except sc.GeometryError:
+                skipped["geometry"] += 1; return
+            except Exception as e:
+                violation(("history-" if src.startswith("history") else "") + "exception",
+                          "%s evaluation raised %s: %s" % (src, type(e).__name__, e), info); return
+            pre = "history-" if src.startswith("history") else ""
+            for key, msg, detail in bad:
+                violation(pre + key, msg, info, detail)
+            ntr = sum(len(c) for c in c1)
+            ck.case(key=(label, repr(crys), round(cut, 5), Nth, src, korigin, json.dumps(extra, sort_keys=True, default=str)),
+                    nontrivial=len(c1) >= 2, kind="%s:%dD-Nth%d" % (src, crys.dim, Nth),
+                    sample={"source": src, "crystal": label, "cutoff": cut, "Nthermo": Nth, "kinetic_states": len(sts),
+                            "omega1_classes": len(c1), "omega1_transitions": ntr, "omega2_classes": len(c2), "G": len(ops),
+                            "history": (extra or {}).get("history")}
+                    if ((cid % 4 == 0 and Nth == 1) or (src.startswith("history") and cid < 2)) and len(ck.samples) < 6 else None)
+            cost = float(ntr + 40) * len(ops) * len(sts) + float(ntr) * ntr
+            if cost <= coq_case_max and state["spent"] + cost <= coq_cost_budget:
+                state["spent"] += cost
+                runs.append("run_omega J%d %d%%nat %d%%nat %s %s G%d %s %s %s %s %s" % (
+                    cid, nsites, Nth + 1, "true" if korigin else "false", "true" if prune else "false", cid, sc.c_pslist(sts),
+                    c_classes(c1), sc.c_natlist(t1), c_classes(c2), sc.c_natlist(t2)))
+                meta.append(info)
+            else:
+                skipped["coq-budget"] += 1
+
+        freshvm = {}
+        vmcap = max(vm_max_states, 270) if in_corpus else vm_max_states
         for Nth in (1, 2):
-            sources = []
             # (a) the StarSet methods, unpruned
             origin = rng.random() < 0.7
             try:
                 S = crystalStars.StarSet(jn, crys, chem, Nth + 1, originstates=origin)
                 j1, t1, sp1 = S.jumpnetwork_omega1()
                 j2, t2, sp2 = S.jumpnetwork_omega2()
-                sources.append(("starset", S, origin, False, j1, t1, j2, t2, None))
             except Exception as e:
                 violation("exception", "StarSet.jumpnetwork_omega1/2 raised %s: %s" % (type(e).__name__, e), dict(info0, Nthermo=Nth))
                 continue
+            judge("starset", Nth, S, origin, False, j1, t1, j2, t2, None)
             # (b) the calculator (pruned), when affordable
-            if S.Nstates + (0 if origin else nsites) <= vm_max_states:
+            if S.Nstates + (0 if origin else nsites) <= vmcap:
                 try:
                     d = OnsagerCalc.VacancyMediated(crys, chem, sl, jn, Nth)
-                    sources.append(("vacancymediated", d.kinetic, True, True, d.om1_jn, d.om1_jt, d.om2_jn, d.om2_jt, d))
+                    freshvm[Nth] = d
+                    judge("vacancymediated", Nth, d.kinetic, True, True, d.om1_jn, d.om1_jt, d.om2_jn, d.om2_jt, d)
                 except Exception as e:
                     violation("exception", "VacancyMediated raised %s: %s" % (type(e).__name__, e), dict(info0, Nthermo=Nth))
             else:
                 skipped["vacancymediated-too-large"] += 1
-            thermo = sc.reach_bruteforce(jumps, Nth, nsites, False)
-            for (src, K, korigin, prune, j1, t1, j2, t2, d) in sources:
-                info = dict(info0, Nthermo=Nth, source=src, originstates=korigin)
+        # ---- history tier: the SAME objects asked again after their range changed (grown and shrunk) --------------------
+        if in_corpus or ncr - len(corpus) <= ck.n(4, 16):
+            def fresh_starset(N, o):
+                Sf = crystalStars.StarSet(jn, crys, chem, N, originstates=o)
+                f1, ft1, _ = Sf.jumpnetwork_omega1(); f2, ft2, _ = Sf.jumpnetwork_omega2()
+                return (Sf, f1, ft1, f2, ft2)
+            big3 = crystalStars.StarSet(jn, crys, chem, 3, originstates=True).Nstates <= ck.n(270, 520)
+            seqs = [[2, 3, 2], [1, 2, 1]] if big3 else [[1, 2, 1, 2]]
+            seqs.append([rng.choice([1, 2, 3] if big3 else [1, 2]) for _ in range(3)])
+            for seq in seqs:
+                o = rng.random() < 0.7
+                hinfo = {"history": seq, "route": "StarSet.generate + jumpnetwork_omega1/2 on one object"}
                 try:
-                    sts = [sc.ps_of(s) for s in K.states]
-                    expected = sc.reach_bruteforce(jumps, Nth + 1, nsites, korigin)
-                    bad = []
-                    if set(sts) != expected or len(set(sts)) != len(sts):
-                        bad.append(("states", "kinetic state list is not the set reachable in Nthermo+1 jumps", {}))
-                    v1, v2, missing = brute(sts, jumps, thermo if prune else None)
-                    if missing:
-                        bad.append(("states", "reverse of a first-shell state missing from the state list", {"state": missing[0]}))
-                    c1, r1 = to_tr(crys, chem, K, j1)
-                    c2, r2 = to_tr(crys, chem, K, j2)
-                    if max(r1, r2) > 1e-8:
-                        bad.append(("dx", "a jump displacement differs from the vacancy displacement by %.3g" % max(r1, r2), {}))
-                    bad += eval_classes(c1, t1, v1, sts, ops, "omega1")
-                    bad += eval_classes(c2, t2, v2, sts, ops, "omega2")
-                    if d is not None:
-                        for idx, (cj, ct) in ((1, (j1, t1)), (2, (j2, t2))):
-                            ol, ojt = d.omegalist(idx)
-                            ok = len(ol) == len(cj) and list(ojt) == list(ct) and all(
-                                sc.ps_of(a) == sts[cl[0][0][0]] and sc.ps_of(b) == sts[cl[0][0][1]] for (a, b), cl in zip(ol, cj))
-                            if not ok: bad.append(("omegalist", "omegalist(%d) inconsistent with om%d_jn" % (idx, idx), {}))
-                except sc.GeometryError:
-                    skipped["geometry"] += 1; continue
+                    S = crystalStars.StarSet(jn, crys, chem, seq[0], originstates=o)
+                    S.jumpnetwork_omega1(); S.jumpnetwork_omega2()          # first request (may be cached by the object)
+                    for k, N in enumerate(seq[1:], 1):
+                        S.generate(N, originstates=o)
+                        j1, t1, _ = S.jumpnetwork_omega1(); j2, t2, _ = S.jumpnetwork_omega2()
+                        hstats["regenerations"] += 1
+                        judge("history-starset", N - 1, S, o, False, j1, t1, j2, t2, None, dict(hinfo, step=k),
+                              fresh=fresh_starset(N, o) if N != seq[k - 1] else None)
                 except Exception as e:
-                    violation("exception", "%s evaluation raised %s: %s" % (src, type(e).__name__, e), info); continue
-                for key, msg, detail in bad:
-                    violation(key, msg, info, detail)
-                ntr = sum(len(c) for c in c1)
-                ck.case(key=(label, repr(crys), round(cut, 5), Nth, src, korigin), nontrivial=len(c1) >= 2,
-                        kind="%s:%dD-Nth%d" % (src, crys.dim, Nth),
-                        sample={"source": src, "crystal": label, "cutoff": cut, "Nthermo": Nth, "kinetic_states": len(sts),
-                                "omega1_classes": len(c1), "omega1_transitions": ntr, "omega2_classes": len(c2), "G": len(ops)}
-                        if (cid % 4 == 0 and Nth == 1) else None)
-                cost = float(ntr + 40) * len(ops) * len(sts) + float(ntr) * ntr
-                if cost <= coq_case_max and spent + cost <= coq_cost_budget:
-                    spent += cost
-                    runs.append("run_omega J%d %d%%nat %d%%nat %s %s G%d %s %s %s %s %s" % (
-                        cid, nsites, Nth + 1, "true" if korigin else "false", "true" if prune else "false", cid, sc.c_pslist(sts),
-                        c_classes(c1), sc.c_natlist(t1), c_classes(c2), sc.c_natlist(t2)))
-                    meta.append(info)
-                else:
-                    skipped["coq-budget"] += 1
+                    violation("history-exception", "regenerated StarSet raised %s: %s" % (type(e).__name__, e), dict(info0, **hinfo))
+            if 1 in freshvm and 2 in freshvm:
+                hinfo = {"history": [1, 2, 1], "route": "VacancyMediated(...,1).generate(2).generate(1)"}
+                try:
+                    d = OnsagerCalc.VacancyMediated(crys, chem, sl, jn, 1)
+                    for k, Nth in enumerate((2, 1), 1):
+                        d.generate(Nth)
+                        hstats["regenerations"] += 1
+                        f = freshvm[Nth]
+                        judge("history-vacancymediated", Nth, d.kinetic, True, True, d.om1_jn, d.om1_jt, d.om2_jn, d.om2_jt, d,
+                              dict(hinfo, step=k), fresh=(f.kinetic, f.om1_jn, f.om1_jt, f.om2_jn, f.om2_jt))
+                except Exception as e:
+                    violation("history-exception", "regenerated VacancyMediated raised %s: %s" % (type(e).__name__, e), dict(info0, **hinfo))
+            else:
+                hstats["vacancymediated-too-large"] += 1
     codes = []
     try:
         codes = sc.run_chunks(ck, "omega", "".join(defs), runs, OMEGA_IMPORTS, chunk=12)
@@ -265,4 +337,5 @@ def run(ck):
             ck.violation("model correspondence: %s" % MEANING.get(c, c), dict(info, model_code=c), key="c26-model-%d" % c)
     ck.extra["model_cases"] = len(codes)
     ck.extra["skipped"] = skipped
+    ck.extra["history_tier"] = hstats
     ck.extra["traces_validated_against_impl"] = len(codes)
